@@ -10,6 +10,7 @@ import zoneinfo
 from .. import classify, clock, drive, hist, world
 from ..oracle import xmlread, xsdlite
 
+TECHNIQUE = 'runtime monitoring: zoneinfo / os.stat oracle on recorded sizes and dates under TZ + injected clock placed around DST switches'
 LEVEL = "exploration"
 RULE = (
     "case = time zone (fixed offsets, half/quarter-hour zones, DST zones of both hemispheres) x file mtimes and injected 'now' "
